@@ -36,12 +36,13 @@ PROPS["C09"] = {
         {"name": "C09_fill_segment_indices_in_range", "status": "proved", "statement": "forall geometries argon2_hash can set up (any lane count), forall pass / lane / slice and ANY block contents: with every Vec index of the filling loop checked (previous, current, reference block; address table) no check fails -- argon2.rs cannot panic on an index"},
         {"name": "C09_geometry", "status": "proved", "statement": "forall accepted memory sizes (one lane): the instance argon2_hash builds has that geometry (4 segments of floor(m/4) >= 2 blocks, memory of exactly lane_length blocks)"},
         {"name": "C09_geometry_kept", "status": "proved", "statement": "fill_segment preserves the geometry, so it holds at every call of every pass"},
+        {"name": "C09_permutation_from_source", "status": "proved", "statement": "the permutation inside fill_block as TRANSLATED from argon2.rs this run (g closure statements with fblamka / rotation amounts, the eight g calls, the 2 x 8 x 16 index expressions) = the model's fill_block, for all blocks"},
         {"name": "C09_verify_iff", "status": "proved", "statement": "PwHash::verify = Ok iff re-hashing the offered password with the stored salt and config gives exactly the stored bytes (so it accepts the password that produced the hash; rejecting every other password is Argon2 collision resistance)"},
         {"name": "C09_rfc9106_argon2id", "status": "proved", "statement": "TEST (vm_compute): the model reproduces RFC 9106 section 5.3 (t=3, m=32, p=4, secret, associated data)"},
         {"name": "C09_rfc9106_argon2i", "status": "proved", "statement": "TEST (vm_compute): the model reproduces RFC 9106 section 5.2"},
         {"name": "C09_example", "status": "proved", "statement": "non-vacuity of the hypotheses"},
     ],
-    "gen_obligations": ["GenTie.blake2b_tables_tie", "GenTie.blake2b_params_tie"],
+    "gen_obligations": ["GenTie.blake2b_tables_tie", "GenTie.blake2b_params_tie", "Gen/Kernels.v (vkernel.py): argon2 g closure, g calls, fill_block index expressions, fblamka template"],
     "builds": ["stable"],
     "rule": "output lengths (every residue mod 32 around 64, 96, 128; 16..1100) x both algorithms at 8 KiB; password lengths 0..300 (thorough: all; quick: the BLAKE2b block edges of the pre-hash); pass counts 1..6 x memory sizes 8 KiB..1 MiB (thorough: every KiB 8..64, up to 4 MiB) including non-multiples of 4 KiB and of 1 KiB; salts of 8..100 bytes; out-of-range opslimit / memlimit (incl. values whose low 32 bits are in range) / outlen 0..15 / salt 0..7; PwHash::hash_with_salt / verify with near-miss passwords and resized stored hashes. "
             "search: libsodium wherever its interface applies (16-byte salt; t >= 3 for Argon2i). correspondence: the extracted model for the small-memory cases and everything libsodium cannot take. non-trivial: all cases (each reaches the hash or its validation)",
